@@ -68,7 +68,7 @@ def run_case(case):
                     "start_delay": float(ARRIVALS[int(rng.integers(len(ARRIVALS)))]), "delay_plan": plan,
                     "compile_args": ["-O0"]}
             plans.append({"role": spec["role"], "start_delay": spec["start_delay"], "delays": plan})
-            procs.append(JH.launch(spec, hdir, f"p{i}"))
+            procs.append(JH.launch(spec, hdir, f"p{i}", strace=bool(case.get("strace"))))
         rcs = JH.wait_all(procs, watchdog=240)
         # second wave
         late = []
@@ -99,6 +99,34 @@ def run_case(case):
                     V.append(("later-request-recompiled", f"{e['role']} launched the compiler although the module was cached"))
                 if e["ev"] == "return" and e["status"] == "returned" and not e.get("from_cache"):
                     V.append(("later-request-recompiled", f"{e['role']} did not take the module from the cache"))
+        if case.get("strace"):
+            # kernel-level cross-check: per process, the order of protocol system calls must equal the order of the audit events,
+            # exactly one exclusive create of the lock may succeed, and no process opens the .so before the marker was created
+            role_pid = {e["role"]: e["pid"] for e in events if e["ev"] == "start"}
+            allsys = []
+            for i in range(n):
+                sysev = JH.parse_strace(os.path.join(hdir, f"strace-p{i}.txt"), cache)
+                allsys += sysev
+                main = role_pid.get(f"p{i}")
+                want = [e["key"] for e in events if e["ev"] == "proto" and e["role"] == f"p{i}" and e["key"] in ("lock_open", "src_tmp_open", "rename_src", "popen_cc", "popen_link", "marker_open")]
+                got = [k for (_, pid_, k, ok_) in sysev if k in ("lock_open", "src_tmp_open", "rename_src", "popen_cc", "popen_link", "marker_open") and (k not in ("popen_cc", "popen_link") or True)]
+                # execve by gcc's own children (cc1, as, collect2) are filtered in parse_strace; compare de-duplicated order
+                dedup = [k for j, k in enumerate(got) if j == 0 or got[j - 1] != k]
+                count("strace_processes")
+                if dedup != want:
+                    V.append(("audit-log-disagrees-with-strace", f"p{i}: audit events {want} but system calls {dedup}"))
+                else:
+                    count("strace_order_agrees")
+            nlock = sum(1 for (_, _, k, ok_) in allsys if k == "lock_open" and ok_)
+            if nlock != 1:
+                V.append(("lock-not-exclusive", f"strace: {nlock} successful O_EXCL creations of the lock file"))
+            tm = [t for (t, _, k, ok_) in allsys if k == "marker_open" and ok_]
+            bpid = [p for (_, p, k, ok_) in allsys if k == "lock_open" and ok_]
+            if tm:
+                early = [(t, p) for (t, p, k, _) in allsys if k == "so_open" and t < min(tm) and p not in bpid]
+                if early:
+                    V.append(("load-before-marker", f"strace: process(es) {sorted({p for _, p in early})} opened the shared object before the marker was created"))
+            count("strace_histories")
         for mech, text in V:
             res["violations"].append({"mechanism": mech, "what": f"N={n} request={req['recipe']['b']}: {text}",
                                       "replay": {"case": case, "plans": plans, "events": [e for e in events if e["ev"] != "start"][:200]}})
@@ -134,7 +162,8 @@ def cases_for(tier, s):
     n_hist = 40 if tier == "quick" else 600
     for i in range(n_hist):
         n = ns[i % 5] if tier == "thorough" or i % 5 != 4 or i < 10 else 4
-        R.append({"n": n, "request": REQUESTS[i % len(REQUESTS)], "late": 1 + (i % 3 == 0), "seed": [s, 14, i]})
+        R.append({"n": n, "request": REQUESTS[i % len(REQUESTS)], "late": 1 + (i % 3 == 0), "seed": [s, 14, i],
+                  "strace": (i % 10 == 1) if tier == "quick" else (i % 8 == 1)})
     return R
 
 
@@ -148,7 +177,7 @@ def main(tier, replay=None):
         "(single lock holder, single compiler launch, no load before/without the marker or of a non-final shared object, all kernels equal the oracle, no "
         "failure, second wave reuses); distinct non-trivial = distinct interleavings (canonical order of (role,event) pairs) that were checked clean",
         ["granularity = the protocol's file-system events as seen by sys.addaudithook; scheduling below that is not controlled",
-         "local file system with atomic O_EXCL (NFS semantics out of reach)", "waiters poll once per second (ffcx's own loop); timeout=120 polls, outer watchdog firing => inconclusive"],
+         "local file system with atomic O_EXCL (NFS semantics out of reach)", "a tenth of the histories also run under strace -f: the kernel-level order of the protocol system calls must equal the audit log per process", "waiters poll once per second (ffcx's own loop); timeout=120 polls, outer watchdog firing => inconclusive"],
     )
     cases = cases_for(tier, s)
     if replay:
